@@ -44,11 +44,16 @@ OPS = ['mulpos', 'mulneg', 'mul0', 'mulnp', 'neg', 'addk', 'subk', 'ksub', 'adda
 BILINEAR = ['dec*dec', 'dec@dec', 'rand*rand', 'rule*rand', 'adaptive*rand', 'cvx*cvx',
             'cvx*aff', 'cvx@aff', 'rand@rand', '(rule+static)*rand', '(rule-static)@rand',
             'rand*(2*rule+static-3)', 'E((rule+static)*rand)', '(static+rule)*rand',
-            'norm(rule+static)']
+            'norm(rule+static)',
+            # stacking helpers: the adaptive operand in every position
+            'sumsqr(static,rule)', 'sumsqr(rule,static)', 'fnorm(static,rule)',
+            'norm(concat(static,rule))', 'norm(concat(rule,static))', 'norm(concat(const,rule))',
+            'concat(static,rule)@rand', 'concat(rule,static)@rand', 'concat(const,rule)@rand',
+            'square(rstack(static,rule))', 'quad(concat(static,rule))']
 
 
 def gen_case(rng, idx, tier):
-    if rng.random() < 0.06:
+    if rng.random() < 0.09:
         return {'kind': 'bilinear', 'which': BILINEAR[int(rng.integers(len(BILINEAR)))],
                 'front': 'ro' if rng.random() < 0.5 else 'dro', 'seed': int(rng.integers(1 << 30))}
     front = 'ro' if rng.random() < 0.5 else 'dro'
@@ -449,6 +454,30 @@ def run_bilinear(spec, ctx):
                 e = rso.norm(r + x)
             else:
                 e = rso.E(((r + x) * z).sum()) if front == 'dro' else ((r + x) * z).sum()
+        elif '(static,rule)' in which or '(rule,static)' in which or '(const,rule)' in which:
+            if front == 'ro':
+                r = m.ldr(3)
+                r.adapt(z)
+            else:
+                r = y
+                r.adapt(z)
+            w6 = np.arange(1.0, 7.0)
+            first, second = (x, r) if 'static,rule' in which else \
+                (r, x) if 'rule,static' in which else (np.ones(3), r)
+            if which.startswith('sumsqr'):
+                e = rso.sumsqr(first, second)
+            elif which.startswith('fnorm'):
+                e = rso.fnorm(first, second)
+            elif which.startswith('norm(concat'):
+                e = rso.norm(rso.concat([first, second]))
+            elif which.startswith('square'):
+                e = rso.square(rso.rstack(first, second)).sum()
+            elif which.startswith('quad'):
+                e = rso.quad(rso.concat([first, second]), np.eye(6))
+            else:
+                zz = rso.concat([z, u]) if hasattr(rso, 'concat') else z
+                st = rso.concat([first, second])
+                e = st @ zz
         elif which == 'cvx*cvx':
             e = rso.norm(x) * rso.norm(y)
         elif which == 'cvx*aff':
@@ -471,7 +500,8 @@ def run_bilinear(spec, ctx):
         sig = '|'.join('%s=%s' % (kk, feats[kk]) for kk in sorted(feats))
         if stage in ('expr', 'compare', 'st'):
             ctx.count('bilinear_rejected')
-            return {'status': 'held', 'features': feats, 'sig': sig, 'nontrivial': True}
+            return {'status': 'held', 'features': feats, 'sig': sig, 'nontrivial': True,
+                    'observed': {'refused_at': stage, 'error': err}}
         return {'status': 'violation', 'mechanism': 'bilinear_late:%s:%s' % (which, front),
                 'detail': {'what': 'bilinear product rejected only at ' + stage, 'error': err},
                 'features': feats, 'sig': sig, 'nontrivial': True}
